@@ -19,11 +19,11 @@ REALM2 = "realm2.example"
 REALM3 = "realm3.example"
 
 
-def cfg_for(states, defaults, nodelay=False):
+def cfg_for(states, defaults, nodelay=False, peer3_realm=None):
     peers = []
     for i, st in enumerate(states):
         pc = {"name": f"peer{i + 1}.example.org", "ips": [f"10.1.0.{i + 1}"], "persistent": True, "reconnect_wait": 600,
-              "realm": env.NODE_REALM, "default": bool(defaults[i])}
+              "realm": env.NODE_REALM if (i != 2 or peer3_realm is None) else peer3_realm, "default": bool(defaults[i])}
         if st == "waiting_dwa":
             pc["idle_timeout"] = 2
         peers.append(pc)
@@ -68,8 +68,9 @@ def bring_up(sc, states):
 
 
 def work_config(args):
-    states, defaults, use_cb = args
-    cfg = cfg_for(states, defaults)
+    states, defaults, use_cb = args[:3]
+    peer3_realm = args[3] if len(args) > 3 else None      # the third peer belongs to another realm than the first two
+    cfg = cfg_for(states, defaults, peer3_realm=peer3_realm)
     sc = scenario.Scenario(cfg, max_socks=8, start_plan=["ok"] * len(states), app_timeout=1)
     out = []
     n = 0
@@ -94,7 +95,7 @@ def work_config(args):
             wrote = {i: [f for f in s.out[before[i]:] if f.h.is_request and f.h.code not in (257, 280, 282)] for i, s in by_peer.items()}
             targets = [i for i, fr in wrote.items() if fr]
             conf, dflt = eligible(cfg, app_i, realm)
-            case = {"states": list(states), "defaults": list(defaults), "callback": use_cb, "app": app_i, "realm": realmkey}
+            case = {"states": list(states), "defaults": list(defaults), "callback": use_cb, "app": app_i, "realm": realmkey, "peer3_realm": peer3_realm}
             desc = f"{case}: outcome {res[2]}, request written to peers {targets}; configured {sorted(conf)} default {sorted(dflt)} ready {sorted(ready_gt)}"
             if len(targets) > 1 or any(len(fr) > 1 for fr in wrote.values()):
                 out.append(Violation("route-request:request-written-more-than-once", desc, case))
@@ -149,6 +150,13 @@ CFG_B2 = {
 }
 
 
+CFG_B3 = {
+    "node": {"ips": ["10.0.0.1"], "tcp_port": 3868, "idle_timeout": 600, "dwa_timeout": 600, "wakeup": 1},
+    "peers": [{"name": "peer1.example.org"}, {"name": "peer2.example.org"}],
+    "apps": [{"id": 3, "acct": True, "peers": [0]}, {"id": 3, "acct": True, "peers": [1]}],     # two instances of one application id
+}
+
+
 def _set_points():
     import diameter.node.node as nn
     import diameter.node.application as aa
@@ -167,7 +175,7 @@ def execute_b(variant, prefix):
     # same_start: both connections' hop-by-hop generators start at the same value (equal ids in flight on different connections)
     rand_plan = None
     split = "split" in script
-    sc = scenario.Scenario(CFG_B2 if split else CFG_B, chooser=ch, max_socks=2, app_timeout=2,
+    sc = scenario.Scenario(CFG_B3 if "twin" in script else (CFG_B2 if split else CFG_B), chooser=ch, max_socks=2, app_timeout=2,
                            rand_plan=[0x10, 0x20, 0x5000, 0x5000] if same_start else None)
     try:
         nw = sc.start()
@@ -281,13 +289,15 @@ def check_b(obs):
         vs.append(("send-request:late-answer-scenario-must-time-out-exactly-one-caller", f"{variant}: {results}"))
     # unexpected answers: only the application that sent the request may see them (or nobody)
     sent_by = {(hbh, e2e): app for si, app, hbh, e2e in reqs}
-    appids = {0: 3, 1: 4}
+    sent_idx = {tuple(r[4]): r[0] for r in results if len(r) > 4 and r[4]}       # identifiers each caller's request left with -> index of its application
+    appids = {0: 3, 1: 4} if "twin" not in script else {0: 3, 1: 3}
     for app_i, hbh, e2e in handle:
         owner = sent_by.get((hbh, e2e))
         if owner is None:
             vs.append(("unexpected-answer:answer-with-unknown-identifiers-shown-to-an-application", f"{variant}: handle_answer({app_i}, {hbh:#x}, {e2e:#x})"))
-        elif owner != appids[app_i]:
-            vs.append(("unexpected-answer:delivered-to-another-application-than-the-sender", f"{variant}: request of application id {owner} shown to application {app_i}"))
+        elif owner != appids[app_i] or sent_idx.get((hbh, e2e), app_i) != app_i:
+            vs.append(("unexpected-answer:delivered-to-another-application-than-the-sender",
+                       f"{variant}: request of application {sent_idx.get((hbh, e2e))} (id {owner}) shown to application {app_i}"))
     if fails:
         vs.append(("send-request:thread-died", f"{variant}: {fails}"))
     return vs
@@ -303,7 +313,10 @@ def variants_b(tier):
     out.append((((0, 1), "rev-dup", False), 1 if tier != "thorough" else 2))         # two applications, one peer in common
     out.append((((0, 0), "rev", True), 1 if tier != "thorough" else 2))              # equal generator start values on both connections
     out.append((((0, 1), "fwd-split", True), 1 if tier != "thorough" else 2))        # two applications on two connections, equal hop-by-hop ids in flight
-    out.append((((0, 1), "rev-dup-split", True), 1 if tier != "thorough" else 2))
+    if tier == "thorough":      # (the quick tier explores the same shape with two instances of one application id instead: rev-dup-twin)
+        out.append((((0, 1), "rev-dup-split", True), 2))
+    out.append((((0, 1), "rev-dup-twin", False), 1 if tier != "thorough" else 2))    # two instances of one application id, one connection each
+    out.append((((1, 1), "fwd-late-twin", False), 1 if tier != "thorough" else 2))
     if tier == "thorough":
         out.append((((0, 0, 1), "rev-late", False), 1))
         out.append((((0, 0, 0), "fwd-dup", True), 1))
@@ -336,6 +349,8 @@ def run(tier):
     common.pool()
     from .. import monitors
     totc = monitors.run_models(rep, dynamic_models(tier), 5 if tier == "thorough" else 4, dedup_depth_plain=2, time_cap=900 if tier == "thorough" else 100)
+    import time as _t
+    t_c = _t.time() - rep.t0
     rep.cov["part_C_states"] = totc["states"]
     rep.cov["part_C_transitions"] = totc["transitions"]
     # part A
@@ -347,12 +362,20 @@ def run(tier):
                 if tier != "thorough" and (hash((states, defaults)) + common.seed()) % 2 and use_cb:
                     continue
                 jobs.append((states, defaults, use_cb))
+    # the same with the third peer in another realm (one add_application call then spans two realms)
+    for states in itertools.product(("none", "ready", "disconnecting") if tier != "thorough" else STATES, repeat=3):
+        for defaults in ((0, 0, 0), (0, 0, 1)):
+            for use_cb in (False, True):
+                if tier != "thorough" and (hash((states, defaults)) + common.seed()) % 2 != int(use_cb):
+                    continue
+                jobs.append((states, defaults, use_cb, REALM2))
     total = 0
     for n, vs in common.pmap(work_config, jobs, chunksize=2):
         total += n
         rep.extend(vs)
     rep.sample({"part": "A", "configurations": len(jobs), "send_requests": total,
                 "example": {"states": ["ready", "waiting_dwa", "none"], "defaults": [0, 1, 0], "callback": True}})
+    t_a = _t.time() - rep.t0 - t_c
     # part B
     vb = variants_b(tier)
     tasks = [(functools.partial(execute_b, v), check_b, b) for v, b in vb]
@@ -366,6 +389,7 @@ def run(tier):
                               {"variant": [list(v[0]), v[1], v[2]], "choices": choices}))
         rep.sample({"part": "B", "callers(apps)": v[0], "answer_script": v[1], "equal_generator_start": v[2], "preemption_bound": b, "bound_completed_without_cap": r.get("bound_completed", b), "capped": r.get("capped", False),
                     "executions": r["executions"], "distinct_outcomes": len(r["outcomes"]), "branching_points": r["max_points"]}, 30)
+    rep.cov["wall_by_part_s"] = {"C": round(t_c, 1), "A": round(t_a, 1), "B": round(_t.time() - rep.t0 - t_c - t_a, 1)}
     rep.cov.update({"states": len(jobs) + execs + totc["states"], "transitions": total + execs + totc["transitions"],
                     "traces_validated_against_impl": len(jobs) + execs + totc["transitions"],
                     "schedules": execs, "configurations": len(jobs), "distinct_outcomes_total": outcomes,
@@ -381,7 +405,7 @@ def run(tier):
 
 def replay(case):
     if "states" in case and "defaults" in case:
-        n, vs = work_config((tuple(case["states"]), tuple(case["defaults"]), case.get("callback", False)))
+        n, vs = work_config((tuple(case["states"]), tuple(case["defaults"]), case.get("callback", False), case.get("peer3_realm")))
         return vs
     if "variant" in case:
         v = (tuple(case["variant"][0]), case["variant"][1], case["variant"][2])
